@@ -542,6 +542,23 @@ def do_replay(spec, path, workdir):
     if rp.get("unit"):
         cmd += ["--unit", rp["unit"]]
     print("replaying: VERIF_SEED=%s %s" % (rp["seed"], " ".join(cmd)))
-    r = subprocess.run(cmd, env=env)
-    print("exit status %s" % r.returncode)
-    return 1 if r.returncode != 0 else 0
+    r = subprocess.run(cmd, env=env, stdout=subprocess.PIPE, stderr=subprocess.STDOUT, text=True, errors="replace")
+    viols = [l for l in r.stdout.splitlines() if l.startswith('{"t":"viol"')]
+    want = rp.get("record", {})
+    shown = 0
+    for l in viols:
+        try:
+            ev = json.loads(l)
+        except ValueError:
+            continue
+        if want.get("check") in (None, "crash", ev.get("check")) and shown < 5:
+            print("  [%s %s] case=%s %s" % (ev.get("check"), ev.get("key"), ev.get("case"), ev.get("msg", "")[:600]))
+            shown += 1
+    if r.returncode != 0:
+        print("\n".join(l for l in r.stdout.splitlines() if not l.startswith("{"))[-3500:])
+    reproduced = r.returncode != 0 or bool(viols)
+    print("replay: %s (harness exit status %s, %d oracle disagreements)" % (
+        "REPRODUCED" if reproduced else "not reproduced", r.returncode, len(viols)))
+    if reproduced:
+        print("VIOLATION property=%s replay=%s" % (spec["id"], path))
+    return 1 if reproduced else 0
